@@ -18,6 +18,7 @@ is the session level above the link (frames advance again, no Disconnected event
 `no-progress`, families loss/specack) and the handshake under loss (C12_handshake covers its
 safety).
 -/
+import GgrsModel.Model.Inventory
 import GgrsModel.Proofs.Endpoint
 import GgrsModel.Proofs.Link
 
